@@ -116,6 +116,56 @@ def check_diff(case, ctx):
         same(pt(A) + pt(A), ec.mul(2 * a), "double_ref")
 
 
+# ---------------------------------------------------------------- object reuse
+
+POINT_OPS = ["sec_c", "sec_u", "xonly", "even_point", "add_other", "rmul", "neg", "eq", "add_int", "double"]
+
+
+def reuse_strategy(tier):
+    op = st.tuples(st.sampled_from(POINT_OPS), st.integers(0, 2), st.integers(0, 2))
+    return st.fixed_dictionaries({
+        "ks": st.tuples(gen.secrets(), gen.secrets(), gen.secrets()),
+        "mult": st.sampled_from([0, 1, 2, 3, N - 1, N, 5, 2**64 + 1]),
+        "ops": st.lists(op, min_size=3, max_size=9),
+    })
+
+
+def check_reuse(case, ctx):
+    """the same three S256Point objects answer a sequence of queries; none may depend on earlier ones"""
+    ks = case["ks"]
+    P_ref = [ec.mul(k) for k in ks]
+    objs = [pt(p) for p in P_ref]
+    ctx.nontrivial()
+    for what, a, b in case["ops"]:
+        ctx.label("op:" + what)
+        A, o = P_ref[a], objs[a]
+        if what == "sec_c":
+            require(o.sec(True) == ec.sec(A, True), "reuse/sec_compressed")
+        elif what == "sec_u":
+            require(o.sec(False) == ec.sec(A, False), "reuse/sec_uncompressed")
+        elif what == "xonly":
+            require(o.xonly() == ec.xonly(A), "reuse/xonly")
+        elif what == "even_point":
+            e = o.even_point()
+            require(co(e) == (A[0], A[1] if A[1] % 2 == 0 else P - A[1]), "reuse/even_point")
+            require(co(o) == A, "reuse/even_point_mutated_operand")
+        elif what == "add_other":
+            require(co(o + objs[b]) == ec.add(A, P_ref[b]), "reuse/add")
+            require(co(o) == A and co(objs[b]) == P_ref[b], "reuse/add_mutated_operand")
+        elif what == "rmul":
+            require(co(case["mult"] * o) == ec.mul(case["mult"] * ks[a]), "reuse/rmul")
+            require(co(o) == A, "reuse/rmul_mutated_operand")
+        elif what == "neg":
+            require(co(-1 * o) == ec.neg(A), "reuse/neg")
+        elif what == "eq":
+            require((o == objs[b]) == (A == P_ref[b]) and (o != objs[b]) == (A != P_ref[b]), "reuse/eq")
+        elif what == "add_int":
+            require(co(o + case["mult"]) == ec.add(A, ec.mul(case["mult"])), "reuse/add_int")
+        elif what == "double":
+            require(co(o + o) == ec.mul(2 * ks[a]), "reuse/double")
+    require(co(G) == ec.G, "reuse/generator_mutated")
+
+
 # --------------------------------------------------------------- small fields
 
 
@@ -375,6 +425,9 @@ SUBS = [
         required=["op:" + o for o in OPS] + ["scalar_multiple_of_n", "negative_scalar",
                                             "scalar>2^256", "add:equal", "add:opposite",
                                             "add:both_inf"]),
+    Sub("point_object_reuse", check_reuse, strategy=reuse_strategy, stateful=True,
+        budget={"quick": 400, "thorough": 15000}, required=["op:" + o for o in POINT_OPS],
+        nontrivial_rule="every history (3..9 operations on the same point objects)"),
     Sub("small_fields_exhaustive", check_field, kind="exhaustive", enumerate=fields_enum,
         nontrivial_rule="one case = all pairs/triples with a fixed first operand in F_p"),
     Sub("small_curves_exhaustive", check_curve, kind="exhaustive", enumerate=curves_enum,
